@@ -2,7 +2,7 @@
     [ica_allow_lists]) as the [w_ica_allow] of a world, and a boolean test that implies [ica_safe]. *)
 From Coq Require Import List Bool Arith ZArith String.
 Import ListNotations.
-Require Import Nib.C17.AnteFacts Nib.C17.MsgTree Nib.C17.Model Nib.C17.Spec Nib.C17.Proofs.
+Require Import Nib.C17.AnteFacts Nib.C17.CarrierTree Nib.C17.Model Nib.C17.Spec Nib.C17.Proofs.
 Open Scope string_scope.
 
 (** message type named in an allow-list → message kind of the model.  Every type that is neither a staking
@@ -17,6 +17,10 @@ Definition kind_of_name (u : string) : mkind :=
   else if String.eqb u "govv1.MsgSubmitProposal" then MKGov
   else if String.eqb u "govtypesv1.MsgSubmitProposal" then MKGov
   else if String.eqb u "channeltypes.MsgRecvPacket" then MKIca
+  else if String.eqb u "group.MsgSubmitProposal" then MKGroup
+  else if String.eqb u "grouptypes.MsgSubmitProposal" then MKGroup
+  else if String.eqb u "group.MsgExec" then MKGroup           (* executes a stored group proposal *)
+  else if String.eqb u "group.MsgVote" then MKGroup           (* … and so does a vote with Exec = TRY *)
   else if String.eqb u "*" then MKExec            (* allow-all: in particular MsgExec *)
   else MKLeaf K_SEND.
 
@@ -32,11 +36,12 @@ Definition name_safe (u : string) : bool :=
 Definition list_safe (l : list string) : bool := forallb name_safe l.
 
 Definition world_with_ica (w : world) (l : list string) : world :=
-  {| w_reflects := w_reflects w; w_gov := w_gov w; w_ica_acct := w_ica_acct w; w_ica_allow := allow_of_list l |}.
+  {| w_reflects := w_reflects w; w_gov := w_gov w; w_ica_acct := w_ica_acct w; w_ica_allow := allow_of_list l;
+     w_group_member := w_group_member w |}.
 
 Lemma mkind_eqb_eq a b : mkind_eqb a b = true -> a = b.
 Proof.
-  destruct a, b; simpl; intro H; try discriminate; auto. apply Nat.eqb_eq in H. now subst.
+  destruct a, b; simpl; intro H; try discriminate; auto; apply Nat.eqb_eq in H; now subst.
 Qed.
 
 Lemma list_safe_sound w l : list_safe l = true -> ica_safe (world_with_ica w l).
@@ -44,6 +49,6 @@ Proof.
   unfold list_safe, ica_safe. simpl. intros H k Hk.
   unfold allow_of_list in Hk. apply existsb_exists in Hk as (u & Hin & Hu).
   rewrite forallb_forall in H. specialize (H u Hin). unfold name_safe in H.
-  apply mkind_eqb_eq in Hu. rewrite Hu in H. destruct k as [n| | | |]; try discriminate.
+  apply mkind_eqb_eq in Hu. rewrite Hu in H. destruct k as [n| | | | | |]; try discriminate.
   apply orb_true_iff in H as [E|E]; apply Nat.eqb_eq in E; subst; auto.
 Qed.
